@@ -303,6 +303,19 @@ def run(ctx):
                        'and the directory is reported as an error instead of being cut to the limit' % (
                            render(arg(c, 0)), cap if cap is not None else 'the result buffer, i.e. datasource_message_max_length + 1'),
                        how='local array of %s bytes (PATH_MAX + 1)' % cap)
+            if c['callee'] == 'gethostname' and name == 'hostname':
+                # gethostname(buf, len) fails (ENAMETOOLONG) unless len > strlen(name): the length it is given has to
+                # hold every name the kernel allows, 64 bytes and the terminator - the data source's own size
+                # parameter (the configured limit + 1), or a constant of at least 65
+                ln = strip(arg(c, 1))
+                lv = ln.get('v') if ln is not None else None
+                lp = decl_of(ln) if ln is not None else None
+                okh = (lv is not None and lv >= 65) or (lv is None and lp is not None and lp.get('kind') == 'parm')
+                chk.ob('Q3', 'hostname:query-length-holds-any-name', okh, c.where(), f.name,
+                       'gethostname() is told its buffer has %s bytes: a host name of that many bytes or more (Linux allows 64) '
+                       'makes the call fail, and the record carries an error text instead of the name' % (
+                           lv if lv is not None else render(ln)[:40]),
+                       how='length = %s' % (lv if lv is not None else render(ln)[:30]))
         # ---- Q4 ----------------------------------------------------------------------------
         if name in ('uid', 'euid', 'gid', 'egid', 'pid', 'ppid', 'sid', 'tty_uid', 'tid_kernel', 'timestamp', 'timestamp_us'):
             convs = []
